@@ -67,7 +67,7 @@ def xiseven_odd(number, odd=False):
         number = 0
     try:
         v = int(_text2num(number)) % 2
-    except ValueError:
+    except (ValueError, OverflowError):  # Also text such as "1e999".
         return Error.errors['#VALUE!']
     return v != 0 if odd else v == 0
 
